@@ -1,4 +1,4 @@
-import Poulpy.Lemmas.ScratchCore
+import Poulpy.Lemmas.ScratchCore2
 /-
 C12 — "Declared scratch size always suffices and scratch contents never matter."
 
@@ -496,5 +496,247 @@ theorem ckks_shift_ok (w : Arena) (h : tbCkksShift n ≤ w.available) : (run (tr
 example : (run (treeCkksShift 16) ⟨4096, tbCkksShift 16⟩).isOk = true := by decide
 
 end core
+
+/-! ## second batch: key-encryption wrappers, compressed encryptions, conversions, matrix forms,
+`glwe_mul_const`, noise helpers, packing (Model/ScratchOps2.lean) -/
+
+section batch2
+variable (be : BE) (n : Nat)
+
+/-- `glwe_secret_tensor_prepare` -/
+theorem glwe_secret_tensor_prepare_ok (rank : Nat) (hn : n % 8 = 0) (w : Arena)
+    (h : tbSecretTensorPrepare be n rank ≤ w.available) : (run (treeSecretTensorPrepare be n rank) w).isOk = true :=
+  ok_of_facts (secretTensorPrepare_facts be n rank hn) w h
+
+example : (run (treeSecretTensorPrepare .ntt120 8 2) ⟨4096, tbSecretTensorPrepare .ntt120 8 2⟩).isOk = true := by decide
+
+/-- `glwe_switching_key_encrypt_sk` -/
+theorem glwe_switching_key_encrypt_sk_ok (k : K) (hn : n % 8 = 0) (w : Arena)
+    (h : tbSwitchingKeyEncryptSk be n k ≤ w.available) : (run (treeSwitchingKeyEncryptSk be n k) w).isOk = true :=
+  ok_of_facts (switchingKeyEncryptSk_facts be n k hn) w h
+
+example : (run (treeSwitchingKeyEncryptSk .fft64 8 ⟨2, 1, 4, 17, 2, 2⟩) ⟨4096, tbSwitchingKeyEncryptSk .fft64 8 ⟨2, 1, 4, 17, 2, 2⟩⟩).isOk = true := by
+  decide
+
+/-- `glwe_automorphism_key_encrypt_sk` -/
+theorem glwe_automorphism_key_encrypt_sk_ok (k : K) (hn : n % 8 = 0) (w : Arena)
+    (h : tbAutomorphismKeyEncryptSk be n k ≤ w.available) : (run (treeAutomorphismKeyEncryptSk be n k) w).isOk = true :=
+  ok_of_facts (automorphismKeyEncryptSk_facts be n k hn) w h
+
+example : (run (treeAutomorphismKeyEncryptSk .ntt120 8 ⟨1, 1, 3, 13, 3, 1⟩) ⟨4096, tbAutomorphismKeyEncryptSk .ntt120 8 ⟨1, 1, 3, 13, 3, 1⟩⟩).isOk = true := by
+  decide
+
+/-- `glwe_tensor_key_encrypt_sk` (the formula reserves `pairs(pairs(rank))` columns for the tensor secret,
+which covers the `pairs(rank)` taken) -/
+theorem glwe_tensor_key_encrypt_sk_ok (k : K) (hn : n % 8 = 0) (w : Arena)
+    (h : tbTensorKeyEncryptSk be n k ≤ w.available) : (run (treeTensorKeyEncryptSk be n k) w).isOk = true :=
+  ok_of_facts (tensorKeyEncryptSk_facts be n k hn) w h
+
+example : (run (treeTensorKeyEncryptSk .fft64 8 ⟨2, 2, 3, 17, 1, 2⟩) ⟨4096, tbTensorKeyEncryptSk .fft64 8 ⟨2, 2, 3, 17, 1, 2⟩⟩).isOk = true := by
+  decide
+
+/-- `gglwe_to_ggsw_key_encrypt_sk` -/
+theorem gglwe_to_ggsw_key_encrypt_sk_ok (k : K) (hn : n % 8 = 0) (w : Arena)
+    (h : tbGglweToGgswKeyEncryptSk be n k ≤ w.available) : (run (treeGglweToGgswKeyEncryptSk be n k) w).isOk = true :=
+  ok_of_facts (gglweToGgswKeyEncryptSk_facts be n k hn) w h
+
+example : (run (treeGglweToGgswKeyEncryptSk .fft64 8 ⟨2, 2, 3, 17, 1, 2⟩) ⟨4096, tbGglweToGgswKeyEncryptSk .fft64 8 ⟨2, 2, 3, 17, 1, 2⟩⟩).isOk = true := by
+  decide
+
+/-- `lwe_switching_key_encrypt_sk`, `lwe_to_glwe_key_encrypt_sk`, `glwe_to_lwe_key_encrypt_sk` -/
+theorem lwe_key_encrypt_sk_ok (k : K) (hn : n % 8 = 0) (hr : 1 ≤ k.rankIn) (w : Arena) :
+    (tbLweSwitchingKeyEncryptSk be n k ≤ w.available → (run (treeLweSwitchingKeyEncryptSk be n k) w).isOk = true) ∧
+    (tbLweToGlweKeyEncryptSk be n k ≤ w.available → (run (treeLweToGlweKeyEncryptSk be n k) w).isOk = true) ∧
+    (tbGlweToLweKeyEncryptSk be n k ≤ w.available → (run (treeGlweToLweKeyEncryptSk be n k) w).isOk = true) :=
+  ⟨ok_of_facts (lweSwitchingKeyEncryptSk_facts be n k hn) w, ok_of_facts (lweToGlweKeyEncryptSk_facts be n k hn hr) w,
+   ok_of_facts (glweToLweKeyEncryptSk_facts be n k hn hr) w⟩
+
+example : (run (treeLweSwitchingKeyEncryptSk .fft64 8 ⟨1, 1, 3, 17, 2, 1⟩) ⟨4096, tbLweSwitchingKeyEncryptSk .fft64 8 ⟨1, 1, 3, 17, 2, 1⟩⟩).isOk = true ∧
+    (run (treeGlweToLweKeyEncryptSk .ntt120 8 ⟨2, 1, 3, 17, 2, 1⟩) ⟨4096, tbGlweToLweKeyEncryptSk .ntt120 8 ⟨2, 1, 3, 17, 2, 1⟩⟩).isOk = true := by
+  decide
+
+/-- the compressed encryptions (`glwe_compressed_encrypt_sk` and `ggsw_compressed_encrypt_sk` have the trees of
+their uncompressed forms; `gglwe_compressed_encrypt_sk` calls the internal encryption directly) -/
+theorem gglwe_compressed_encrypt_sk_ok (k : K) (hn : n % 8 = 0) (w : Arena)
+    (h : tbGgxEncryptSk be n k.size ≤ w.available) : (run (treeGglweCompressedEncryptSk be n k) w).isOk = true :=
+  ok_of_facts (gglweCompressedEncryptSk_facts be n k hn) w h
+
+example : (run (treeGglweCompressedEncryptSk .fft64 8 ⟨2, 1, 5, 17, 2, 2⟩) ⟨4096, tbGgxEncryptSk .fft64 8 5⟩).isOk = true := by decide
+
+/-- `glwe_from_lwe` (same- and cross-radix LWE; the key-switch term of the formula is evaluated on the embedded LWE) -/
+theorem glwe_from_lwe_ok (res : G) (lwe : L) (k : K) (hn : n % 8 = 0) (hin : k.rankIn = 1) (hres : res.rank = k.rankOut)
+    (w : Arena) (h : tbGlweFromLwe be n res lwe k ≤ w.available) : (run (treeGlweFromLwe be n res lwe k) w).isOk = true :=
+  ok_of_facts (glweFromLwe_facts be n res lwe k hn hin hres) w h
+
+example : (run (treeGlweFromLwe .ntt120 32 ⟨1, 1, 7⟩ ⟨5, 7⟩ ⟨1, 1, 5, 7, 2, 1⟩) ⟨4096, tbGlweFromLwe .ntt120 32 ⟨1, 1, 7⟩ ⟨5, 7⟩ ⟨1, 1, 5, 7, 2, 1⟩⟩).isOk = true := by
+  decide
+
+/-- `lwe_from_glwe` -/
+theorem lwe_from_glwe_ok (lwe : L) (a : G) (k : K) (idx : Nat) (hn : n % 8 = 0) (ha : a.rank = k.rankIn) (hout : k.rankOut = 1)
+    (w : Arena) (h : tbLweFromGlwe be n lwe a k ≤ w.available) : (run (treeLweFromGlwe be n lwe a k idx) w).isOk = true :=
+  ok_of_facts (lweFromGlwe_facts be n lwe a k idx hn ha hout) w h
+
+example : (run (treeLweFromGlwe .fft64 8 ⟨3, 13⟩ ⟨2, 4, 17⟩ ⟨2, 1, 5, 17, 2, 1⟩ 3) ⟨4096, tbLweFromGlwe .fft64 8 ⟨3, 13⟩ ⟨2, 4, 17⟩ ⟨2, 1, 5, 17, 2, 1⟩⟩).isOk = true := by
+  decide
+
+/-- `lwe_keyswitch`: the formula is evaluated at `max(a.max_k, res.max_k)`; the key-switch query is monotone in
+the input size (`tbGlweKeyswitch_mono`), so it covers the actual operands -/
+theorem lwe_keyswitch_ok (res a : L) (k : K) (hn : n % 8 = 0) (hin : k.rankIn = 1) (hout : k.rankOut = 1)
+    (hra : 0 < a.b2k) (hrr : 0 < res.b2k) (w : Arena) (h : tbLweKeyswitch be n res a k ≤ w.available) :
+    (run (treeLweKeyswitch be n res a k) w).isOk = true :=
+  ok_of_facts (lweKeyswitch_facts be n res a k hn hin hout hra hrr) w h
+
+example : (run (treeLweKeyswitch .fft64 8 ⟨2, 19⟩ ⟨5, 7⟩ ⟨1, 1, 4, 13, 3, 1⟩) ⟨4096, tbLweKeyswitch .fft64 8 ⟨2, 19⟩ ⟨5, 7⟩ ⟨1, 1, 4, 13, 3, 1⟩⟩).isOk = true := by
+  decide
+
+/-- monotonicity used above: `glwe_keyswitch_tmp_bytes` ignores the size of `res` and grows with the size of `a` -/
+theorem glwe_keyswitch_query_monotone (k : K) (rr rs rs' rb rb' ar ab : Nat) {s s' : Nat} (h : s ≤ s') :
+    tbGlweKeyswitch be n ⟨rr, rs, rb⟩ ⟨ar, s, ab⟩ k ≤ tbGlweKeyswitch be n ⟨rr, rs', rb'⟩ ⟨ar, s', ab⟩ k :=
+  tbGlweKeyswitch_mono be n k rr rs rs' rb rb' ar ab h
+
+example : tbGlweKeyswitch .fft64 8 ⟨1, 2, 17⟩ ⟨1, 2, 13⟩ ⟨1, 1, 4, 17, 2, 2⟩ ≤ tbGlweKeyswitch .fft64 8 ⟨1, 9, 7⟩ ⟨1, 5, 13⟩ ⟨1, 1, 4, 17, 2, 2⟩ := by
+  decide
+
+/-- `gglwe_keyswitch(_assign)`, `gglwe_external_product(_assign)`, `ggsw_external_product(_assign)`,
+`ggsw_rotate_assign`: the GLWE query serves every row/column call -/
+theorem matrix_rows_ok {t : AllocTree} {tb : Nat} (cnt : Nat) (ht : fits t = true ∧ aligned t = true ∧ reqA t ≤ tb) (w : Arena)
+    (h : tb ≤ w.available) : (run (treeRows tb cnt t) w).isOk = true :=
+  ok_of_facts (rows_facts cnt ht) w h
+
+example : (run (treeRows (tbGlweKeyswitch .fft64 8 ⟨1, 3, 17⟩ ⟨1, 3, 17⟩ ⟨1, 1, 4, 17, 2, 1⟩) 4
+    (treeGlweKeyswitch .fft64 8 ⟨1, 3, 17⟩ ⟨1, 3, 17⟩ ⟨1, 1, 4, 17, 2, 1⟩)) ⟨4096, tbGlweKeyswitch .fft64 8 ⟨1, 3, 17⟩ ⟨1, 3, 17⟩ ⟨1, 1, 4, 17, 2, 1⟩⟩).isOk = true := by
+  decide
+
+/-- `gglwe_keyswitch`, as an instance of `matrix_rows_ok` -/
+theorem gglwe_keyswitch_ok (cnt : Nat) (res a : G) (k : K) (hn : n % 8 = 0) (ha : a.rank = k.rankIn) (hres : res.rank = k.rankOut)
+    (w : Arena) (h : tbGlweKeyswitch be n res a k ≤ w.available) :
+    (run (treeRows (tbGlweKeyswitch be n res a k) cnt (treeGlweKeyswitch be n res a k)) w).isOk = true :=
+  matrix_rows_ok cnt (keyswitch_facts be n res a k hn ha hres) w h
+
+example : fits (treeGlweKeyswitch .fft64 8 ⟨1, 3, 17⟩ ⟨1, 3, 17⟩ ⟨1, 1, 4, 17, 2, 1⟩) = true := by decide
+
+/-- `gglwe_external_product` / `ggsw_external_product` -/
+theorem matrix_external_product_ok (cnt : Nat) (res a : G) (k : K) (hn : n % 8 = 0) (hres : res.rank = k.rankOut)
+    (hb0 : 0 < k.b2k) (hd : 1 ≤ k.dsize) (w : Arena) (h : tbGlweExternalProduct be n res a k ≤ w.available) :
+    (run (treeRows (tbGlweExternalProduct be n res a k) cnt (treeGlweExternalProduct be n res a k)) w).isOk = true :=
+  matrix_rows_ok cnt (externalProduct_facts be n res a k hn hres hb0 hd) w h
+
+example : (run (treeRows (tbGlweExternalProduct .ntt120 8 ⟨1, 3, 17⟩ ⟨1, 3, 17⟩ ⟨1, 1, 4, 13, 2, 2⟩) 2
+    (treeGlweExternalProduct .ntt120 8 ⟨1, 3, 17⟩ ⟨1, 3, 17⟩ ⟨1, 1, 4, 13, 2, 2⟩)) ⟨4096, tbGlweExternalProduct .ntt120 8 ⟨1, 3, 17⟩ ⟨1, 3, 17⟩ ⟨1, 1, 4, 13, 2, 2⟩⟩).isOk = true := by
+  decide
+
+/-- `ggsw_expand_row` / `ggsw_from_gglwe` (row expansion with a GGLWE-to-GGSW key of any size and `dsize`) -/
+theorem ggsw_expand_rows_ok (dnum : Nat) (res : G) (t : K) (hn : n % 8 = 0) (hin : t.rankIn = res.rank) (hout : t.rankOut = res.rank)
+    (w : Arena) (h : tbGgswExpandRows be n res t ≤ w.available) : (run (treeGgswExpandRows be n dnum res t) w).isOk = true :=
+  ok_of_facts (expandRows_facts be n dnum res t hn hin hout) w h
+
+example : (run (treeGgswExpandRows .fft64 16 1 ⟨1, 2, 7⟩ ⟨1, 1, 7, 19, 2, 3⟩) ⟨4096, tbGgswExpandRows .fft64 16 ⟨1, 2, 7⟩ ⟨1, 1, 7, 19, 2, 3⟩⟩).isOk = true := by
+  decide
+
+/-- `ggsw_keyswitch(_assign)` and `ggsw_automorphism(_assign)` -/
+theorem ggsw_keyswitch_ok (dnum : Nat) (res a : G) (k t : K) (hn : n % 8 = 0) (ha : a.rank = k.rankIn) (hres : res.rank = k.rankOut)
+    (hin : t.rankIn = res.rank) (hout : t.rankOut = res.rank) (w : Arena) :
+    (tbGgswKeyswitch be n res a k t ≤ w.available → (run (treeGgswKeyswitch be n dnum res a k t) w).isOk = true) ∧
+    (tbGgswAutomorphism be n res a k t ≤ w.available → (run (treeGgswAutomorphism be n dnum res a k t) w).isOk = true) :=
+  ⟨ok_of_facts (ggswKeyswitch_facts be n dnum res a k t hn ha hres hin hout) w,
+   ok_of_facts (ggswAutomorphism_facts be n dnum res a k t hn ha hres hin hout) w⟩
+
+example : (run (treeGgswKeyswitch .fft64 16 1 ⟨1, 2, 7⟩ ⟨1, 2, 7⟩ ⟨1, 1, 5, 13, 1, 3⟩ ⟨1, 1, 7, 19, 2, 3⟩)
+    ⟨4096, tbGgswKeyswitch .fft64 16 ⟨1, 2, 7⟩ ⟨1, 2, 7⟩ ⟨1, 1, 5, 13, 1, 3⟩ ⟨1, 1, 7, 19, 2, 3⟩⟩).isOk = true := by decide
+
+/-- `glwe_automorphism_key_automorphism(_assign)` -/
+theorem atk_automorphism_ok (cnt : Nat) (res a : G) (k : K) (same : Bool) (hn : n % 8 = 0) (ha : a.rank = k.rankIn)
+    (hres : res.rank = k.rankOut) (hsame : same = true → a = res) (w : Arena) :
+    (tbAtkAutomorphism be n res a k same ≤ w.available → (run (treeAtkAutomorphism be n cnt res a k same) w).isOk = true) ∧
+    (a = res → tbAtkAutomorphism be n res res k true ≤ w.available → (run (treeAtkAutomorphismAssign be n cnt res k) w).isOk = true) :=
+  ⟨ok_of_facts (atkAutomorphism_facts be n cnt res a k same hn ha hres hsame) w,
+   fun he => ok_of_facts (atkAutomorphismAssign_facts be n cnt res k hn (he ▸ ha) hres) w⟩
+
+example : (run (treeAtkAutomorphism .fft64 8 2 ⟨1, 3, 17⟩ ⟨1, 4, 17⟩ ⟨1, 1, 4, 17, 2, 1⟩ false)
+    ⟨4096, tbAtkAutomorphism .fft64 8 ⟨1, 3, 17⟩ ⟨1, 4, 17⟩ ⟨1, 1, 4, 17, 2, 1⟩ false⟩).isOk = true := by decide
+
+/-- `glwe_mul_const(_assign)` -/
+theorem glwe_mul_const_ok (off : Nat) (res a : G) (bSize : Nat) (hn : n % 8 = 0) (w : Arena) :
+    (tbGlweMulConst be n res a bSize ≤ w.available → (run (treeGlweMulConst be n off res a bSize) w).isOk = true) ∧
+    (tbGlweMulConst be n res res bSize ≤ w.available → (run (treeGlweMulConstAssign be n res bSize) w).isOk = true) :=
+  ⟨ok_of_facts (mulConst_facts be n off res a bSize hn) w, ok_of_facts (mulConstAssign_facts be n res bSize hn) w⟩
+
+example : (run (treeGlweMulConst .fft64 16 0 ⟨0, 1, 19⟩ ⟨0, 1, 19⟩ 1) ⟨4096, tbGlweMulConst .fft64 16 ⟨0, 1, 19⟩ ⟨0, 1, 19⟩ 1⟩).isOk = true := by decide
+
+/-- `glwe_noise`, `gglwe_noise`, `ggsw_noise`, `glwe_tensor_decrypt` -/
+theorem noise_helpers_ok (g : G) (col : Nat) (hn : n % 8 = 0) (w : Arena) :
+    (tbGlweNoise be n g.size ≤ w.available → (run (treeGlweNoise be n g) w).isOk = true) ∧
+    (tbGglweNoise be n g.size ≤ w.available → (run (treeGglweNoise be n g) w).isOk = true) ∧
+    (tbGgswNoise be n g.size ≤ w.available → (run (treeGgswNoise be n g col) w).isOk = true) ∧
+    (tbGlweTensorDecrypt be n g ≤ w.available → (run (treeGlweTensorDecrypt be n g) w).isOk = true) :=
+  ⟨ok_of_facts (glweNoise_facts be n g hn) w, ok_of_facts (gglweNoise_facts be n g hn) w,
+   ok_of_facts (ggswNoise_facts be n g col hn) w, ok_of_facts (glweTensorDecrypt_facts be n g hn) w⟩
+
+example : (run (treeGgswNoise .ntt120 8 ⟨2, 3, 17⟩ 1) ⟨4096, tbGgswNoise .ntt120 8 3⟩).isOk = true ∧
+    (run (treeGlweTensorDecrypt .ntt120 8 ⟨2, 1, 17⟩) ⟨4096, tbGlweTensorDecrypt .ntt120 8 ⟨2, 1, 17⟩⟩).isOk = true := by decide
+
+/-- `glwe_pack` and `glwe_packer_add` -/
+theorem glwe_pack_ok (rounds iters : Nat) (res : G) (k : K) (hn : n % 8 = 0) (hin : res.rank = k.rankIn) (hout : res.rank = k.rankOut)
+    (w : Arena) :
+    (tbGlwePack be n res k ≤ w.available → (run (treeGlwePack be n rounds iters res res k) w).isOk = true) ∧
+    (tbGlwePacker be n res k ≤ w.available → (run (treeGlwePackerAdd be n res k) w).isOk = true) :=
+  ⟨ok_of_facts (glwePack_facts be n rounds iters res k hn hin hout) w, ok_of_facts (glwePackerAdd_facts be n res k hn hin hout) w⟩
+
+example : (run (treeGlwePack .fft64 8 2 1 ⟨1, 2, 17⟩ ⟨1, 2, 17⟩ ⟨1, 1, 3, 17, 2, 1⟩) ⟨4096, tbGlwePack .fft64 8 ⟨1, 2, 17⟩ ⟨1, 1, 3, 17, 2, 1⟩⟩).isOk = true := by
+  decide
+
+/-- `glwe_tensor_relinearize(res, a, tsk, tsk_size)` for any `tsk_size ≤ tsk.size()` -/
+theorem glwe_tensor_relinearize_ok (tskSize : Nat) (a : G) (t : K) (hn : n % 8 = 0) (hs : tskSize ≤ t.size) (w : Arena)
+    (h : tbGlweTensorRelinearize be n a t ≤ w.available) : (run (treeGlweTensorRelinearize be n tskSize a t) w).isOk = true :=
+  ok_of_facts (relinearize_facts be n tskSize a t hn hs) w h
+
+example : (run (treeGlweTensorRelinearize .fft64 8 4 ⟨1, 3, 13⟩ ⟨1, 1, 4, 17, 2, 2⟩) ⟨4096, tbGlweTensorRelinearize .fft64 8 ⟨1, 3, 13⟩ ⟨1, 1, 4, 17, 2, 2⟩⟩).isOk = true := by
+  decide
+
+/-- `cswap` with both operands in the selector's radix (the cross-radix branch of the pinned code panics in
+`glwe_sub` before any scratch question arises, see docs/C12.md §4) -/
+theorem cswap_ok (ra rb : G) (k : K) (hn : n % 8 = 0) (hrad : ra.b2k = k.b2k) (hb0 : 0 < k.b2k) (hd : 1 ≤ k.dsize) (w : Arena)
+    (h : tbCswap be n ra rb k ≤ w.available) : (run (treeCswap be n ra rb k) w).isOk = true :=
+  ok_of_facts (cswap_facts be n ra rb k hn hrad hb0 hd) w h
+
+example : (run (treeCswap .ntt120 8 ⟨1, 6, 7⟩ ⟨1, 1, 7⟩ ⟨1, 1, 3, 7, 3, 1⟩) ⟨4096, tbCswap .ntt120 8 ⟨1, 6, 7⟩ ⟨1, 1, 7⟩ ⟨1, 1, 3, 7, 3, 1⟩⟩).isOk = true := by
+  decide
+
+/-- CKKS operations built from modelled core operations: `ckks_rotate` / `ckks_conjugate`, the plaintext
+add/sub forms, `ckks_encrypt_sk`, `ckks_decrypt` -/
+theorem ckks_core_built_ok (ct : G) (k : K) (hn : n % 8 = 0) (hin : ct.rank = k.rankIn) (hout : ct.rank = k.rankOut) (w : Arena) :
+    (tbCkksRotate be n ct k ≤ w.available → (run (treeCkksRotate be n ct k) w).isOk = true) ∧
+    (tbCkksPtVecZnx n ≤ w.available → (run (treeCkksPtVecZnx n) w).isOk = true) ∧
+    (tbCkksEncryptSk be n ct.size ≤ w.available → (run (treeCkksEncryptSk be n ct) w).isOk = true) ∧
+    (tbCkksDecrypt be n ct.size ≤ w.available → (run (treeCkksDecrypt be n ct) w).isOk = true) :=
+  ⟨ok_of_facts (ckksRotate_facts be n ct k hn hin hout) w, ok_of_facts (ckksPtVecZnx_facts n) w,
+   ok_of_facts (ckksEncryptSk_facts be n ct hn) w, ok_of_facts (ckksDecrypt_facts be n ct hn) w⟩
+
+example : (run (treeCkksRotate .fft64 8 ⟨1, 3, 17⟩ ⟨1, 1, 4, 17, 3, 1⟩) ⟨4096, tbCkksRotate .fft64 8 ⟨1, 3, 17⟩ ⟨1, 1, 4, 17, 3, 1⟩⟩).isOk = true ∧
+    (run (treeCkksDecrypt .ntt120 8 ⟨1, 1, 17⟩) ⟨4096, tbCkksDecrypt .ntt120 8 1⟩).isOk = true := by decide
+
+/-- the monotonicity clause on a CKKS operation set (what `ckks_all_ops_with_atk_tmp_bytes` does for the whole
+evaluator): a scratch of the **maximum** of the queries of encrypt, decrypt, add/sub (ct and plaintext forms),
+neg/pow2/rescale/align, rotate and conjugate runs every one of them -/
+theorem ckks_max_serves_modelled_ops (ct : G) (k : K) (hn : n % 8 = 0) (hin : ct.rank = k.rankIn) (hout : ct.rank = k.rankOut) (w : Arena)
+    (h : max (tbCkksEncryptSk be n ct.size) (max (tbCkksDecrypt be n ct.size) (max (tbCkksShiftNorm n)
+          (max (tbCkksPtVecZnx n) (max (tbCkksShift n) (tbCkksRotate be n ct k))))) ≤ w.available) :
+    ∀ t ∈ [treeCkksEncryptSk be n ct, treeCkksDecrypt be n ct, treeCkksShiftNorm n, treeCkksPtVecZnx n, treeCkksShift n,
+            treeCkksRotate be n ct k], (run t w).isOk = true := by
+  obtain ⟨r1, r2, r3, r4⟩ := ckks_core_built_ok be n ct k hn hin hout w
+  intro t ht
+  simp only [List.mem_cons, List.mem_nil_iff, or_false] at ht
+  rcases ht with rfl | rfl | rfl | rfl | rfl | rfl
+  · exact r3 (by omega)
+  · exact r4 (by omega)
+  · exact ckks_shift_norm_ok n w (by omega)
+  · exact r2 (by omega)
+  · exact ckks_shift_ok n w (by omega)
+  · exact r1 (by omega)
+
+example : ∀ t ∈ [treeCkksEncryptSk .fft64 8 ⟨1, 2, 17⟩, treeCkksShift 8], (run t ⟨4096, tbCkksEncryptSk .fft64 8 2⟩).isOk = true := by
+  decide
+
+end batch2
 
 end C12
